@@ -31,6 +31,7 @@ CONSTANTS Starts,        \* start instances (one caller process each)
           JunkBudget,    \* garbage / unknown-id datagrams
           CloseConn,     \* FALSE = WithNoConnClose
           HasFallback,   \* WithHandler set
+          RtoChanges,    \* how many times SetRTO may be called (it toggles the client's RTO between 1 and 2)
           DeadlineTicks, \* TRUE: the clock jumps straight past the next agent deadline (deep retransmission chains)
           OneAtATime,    \* TRUE: a Collect / Close that would emit events for several ids at once is not taken
                          \* (the real agent iterates a Go map: their order cannot be replayed)
@@ -54,6 +55,7 @@ VARIABLES
   at, aclosed, alock,                \* agent table (id -> deadline), closed flag, mutex held across Close's callbacks
   obj,                               \* obj[o] = [id, attempt, calls, owner, free]
   clock,
+  rto, rtoBudget,                    \* the client's current RTO (SetRTO), remaining SetRTO calls
   pc, loc,                           \* gate each process is parked at; its locals
   inbox,                             \* datagram waiting at conn.Read: None | [kind, id]
   fails, resps, junk,                \* remaining budgets
@@ -62,11 +64,11 @@ VARIABLES
   hcalls, hlast, ret, fbcalls,       \* per start: handler invocations, last event kind, Start result; fallback calls
   ended                              \* ended[id]: the transaction's handler has run or Close returned (for QuietAfterEnd)
 
-vars == << closed, closeChan, connCloses, ct, at, aclosed, alock, obj, clock, pc, loc, inbox,
+vars == << closed, closeChan, connCloses, ct, at, aclosed, alock, obj, clock, rto, rtoBudget, pc, loc, inbox,
            fails, resps, junk, wsucc, wlog, hcalls, hlast, ret, fbcalls, ended >>
 
 \* observation-only variables are hidden from the state identity
-View == << closed, closeChan, connCloses, ct, at, aclosed, alock, obj, clock, pc, loc, inbox,
+View == << closed, closeChan, connCloses, ct, at, aclosed, alock, obj, clock, rto, rtoBudget, pc, loc, inbox,
            fails, resps, junk, wsucc, hcalls, ret, fbcalls, ended >>
 
 NoLoc == [id |-> None, o |-> None, ev |-> None, todo |-> <<>>, rpc |-> None, s |-> None, now |-> 0]
@@ -75,8 +77,9 @@ Init ==
   /\ closed = FALSE /\ closeChan = FALSE /\ connCloses = 0
   /\ ct = [i \in Ids |-> None]
   /\ at = [i \in Ids |-> None] /\ aclosed = FALSE /\ alock = None
-  /\ obj = [o \in Objs |-> [id |-> None, attempt |-> 0, calls |-> 0, owner |-> None, free |-> TRUE, reg |-> 0, prev |-> 0]]
+  /\ obj = [o \in Objs |-> [id |-> None, attempt |-> 0, calls |-> 0, owner |-> None, free |-> TRUE, reg |-> 0, prev |-> 0, rto |-> 1]]
   /\ clock = 0
+  /\ rto = 1 /\ rtoBudget = RtoChanges
   /\ pc = [p \in Procs |-> IF p \in Starts THEN "idle" ELSE IF p = RD THEN "RD_read" ELSE IF p = CL THEN "CL_idle"
                            ELSE IF AllowClose THEN "X_begin" ELSE "X_never"]
   /\ loc = [p \in Procs |-> NoLoc]
@@ -93,15 +96,15 @@ Ev(kind, id) == [kind |-> kind, id |-> id]
 Goto(p, l) == pc' = [pc EXCEPT ![p] = l]
 SetLoc(p, r) == loc' = [loc EXCEPT ![p] = r]
 
-RTO == 1
-Deadline(now, attempt) == now + (attempt + 1) * RTO
+\* a transaction keeps the RTO that was current when it was started (obj[o].rto)
+Deadline(now, attempt, r) == now + (attempt + 1) * r
 
 ---------------------------------------------------------------------------
 (* conn.Write: succeeds, or fails while the budget lasts *)
 WriteOutcomes == IF fails > 0 THEN {TRUE, FALSE} ELSE {TRUE}
 
-LogWrite(id, attempt, reg, prev, ok) ==
-  /\ wlog' = Append(wlog, [id |-> id, attempt |-> attempt, t |-> clock, reg |-> reg, prev |-> prev, ok |-> ok])
+LogWrite(id, attempt, reg, prev, r, ok) ==
+  /\ wlog' = Append(wlog, [id |-> id, attempt |-> attempt, t |-> clock, reg |-> reg, prev |-> prev, rto |-> r, ok |-> ok])
   /\ wsucc' = IF ok THEN [wsucc EXCEPT ![id] = @ + 1] ELSE wsucc
   /\ fails' = IF ok THEN fails ELSE fails - 1
 
@@ -114,7 +117,7 @@ StartBegin(s) ==
   /\ IF closed
      THEN /\ Goto(s, "done") /\ ret' = [ret EXCEPT ![s] = "err"] /\ UNCHANGED loc
      ELSE /\ Goto(s, "S_now") /\ SetLoc(s, [NoLoc EXCEPT !.id = IdOf[s], !.s = s]) /\ UNCHANGED ret
-  /\ UNCHANGED << closed, closeChan, connCloses, ct, at, aclosed, alock, obj, clock, inbox, fails, resps, junk,
+  /\ UNCHANGED << closed, closeChan, connCloses, ct, at, aclosed, alock, obj, clock, rto, rtoBudget, inbox, fails, resps, junk,
                   wsucc, wlog, hcalls, hlast, fbcalls, ended >>
 
 \* S1: clock read, acquire a pooled object (any free one), snapshot, c.start registration -> agent.Start gate
@@ -122,12 +125,12 @@ StartRegister(s) ==
   /\ pc[s] = "S_now"
   /\ \E o \in { x \in Objs : obj[x].free } :
        LET id == IdOf[s] IN
-       /\ obj' = [obj EXCEPT ![o] = [id |-> id, attempt |-> 0, calls |-> 0, owner |-> s, free |-> FALSE, reg |-> clock, prev |-> clock]]
+       /\ obj' = [obj EXCEPT ![o] = [id |-> id, attempt |-> 0, calls |-> 0, owner |-> s, free |-> FALSE, reg |-> clock, prev |-> clock, rto |-> rto]]
        /\ IF closed \/ ct[id] # None
           THEN /\ Goto(s, "done") /\ ret' = [ret EXCEPT ![s] = "err"] /\ UNCHANGED << ct, loc >>
           ELSE /\ ct' = [ct EXCEPT ![id] = o]
                /\ Goto(s, "S_agentStart") /\ SetLoc(s, [loc[s] EXCEPT !.o = o, !.now = clock]) /\ UNCHANGED ret
-  /\ UNCHANGED << closed, closeChan, connCloses, at, aclosed, alock, clock, inbox, fails, resps, junk,
+  /\ UNCHANGED << closed, closeChan, connCloses, at, aclosed, alock, clock, rto, rtoBudget, inbox, fails, resps, junk,
                   wsucc, wlog, hcalls, hlast, fbcalls, ended >>
 
 \* S2: agent.Start critical section -> conn.Write gate
@@ -136,9 +139,9 @@ StartAgent(s) ==
   /\ LET id == IdOf[s] IN
      IF aclosed \/ at[id] # None
      THEN /\ Goto(s, "done") /\ ret' = [ret EXCEPT ![s] = "err"] /\ UNCHANGED at
-     ELSE /\ at' = [at EXCEPT ![id] = Deadline(loc[s].now, 0)]
+     ELSE /\ at' = [at EXCEPT ![id] = Deadline(loc[s].now, 0, obj[loc[s].o].rto)]
           /\ Goto(s, "S_write") /\ UNCHANGED ret
-  /\ UNCHANGED << closed, closeChan, connCloses, ct, aclosed, alock, obj, clock, loc, inbox, fails, resps, junk,
+  /\ UNCHANGED << closed, closeChan, connCloses, ct, aclosed, alock, obj, clock, rto, rtoBudget, loc, inbox, fails, resps, junk,
                   wsucc, wlog, hcalls, hlast, fbcalls, ended >>
 
 \* S3: the first transmission; on failure the client-table entry is deleted -> agent.Stop gate
@@ -149,11 +152,11 @@ StartWrite(s) ==
   /\ pc[s] = "S_write"
   /\ \E ok \in WriteOutcomes :
        /\ (Strict /\ ~ok) => Untouched(s)
-       /\ LogWrite(IdOf[s], 0, loc[s].now, loc[s].now, ok)
+       /\ LogWrite(IdOf[s], 0, loc[s].now, loc[s].now, obj[loc[s].o].rto, ok)
        /\ IF ok
           THEN /\ Goto(s, "done") /\ ret' = [ret EXCEPT ![s] = "nil"] /\ UNCHANGED ct
           ELSE /\ ct' = [ct EXCEPT ![IdOf[s]] = None] /\ Goto(s, "S_agentStop") /\ UNCHANGED ret
-  /\ UNCHANGED << closed, closeChan, connCloses, at, aclosed, alock, obj, clock, loc, inbox, resps, junk,
+  /\ UNCHANGED << closed, closeChan, connCloses, at, aclosed, alock, obj, clock, rto, rtoBudget, loc, inbox, resps, junk,
                   hcalls, hlast, fbcalls, ended >>
 
 \* S4: agent.Stop critical section; a registered transaction yields a stopped event (nested callback)
@@ -165,20 +168,20 @@ StartStop(s) ==
      ELSE /\ at' = [at EXCEPT ![id] = None]
           /\ Goto(s, "CB_enter") /\ SetLoc(s, [loc[s] EXCEPT !.ev = Ev("stopped", id), !.rpc = "S_stopret"])
           /\ UNCHANGED ret
-  /\ UNCHANGED << closed, closeChan, connCloses, ct, aclosed, alock, obj, clock, inbox, fails, resps, junk,
+  /\ UNCHANGED << closed, closeChan, connCloses, ct, aclosed, alock, obj, clock, rto, rtoBudget, inbox, fails, resps, junk,
                   wsucc, wlog, hcalls, hlast, fbcalls, ended >>
 
 StartStopRet(s) ==
   /\ pc[s] = "S_stopret"
   /\ Goto(s, "done") /\ ret' = [ret EXCEPT ![s] = "err"]
-  /\ UNCHANGED << closed, closeChan, connCloses, ct, at, aclosed, alock, obj, clock, loc, inbox, fails, resps, junk,
+  /\ UNCHANGED << closed, closeChan, connCloses, ct, at, aclosed, alock, obj, clock, rto, rtoBudget, loc, inbox, fails, resps, junk,
                   wsucc, wlog, hcalls, hlast, fbcalls, ended >>
 
 ---------------------------------------------------------------------------
 (* handleAgentCallback, run by whichever goroutine the agent called the handler in *)
 
 \* transaction.handle(e): the once-guard; TRUE iff this call is the first for the object
-PutObj(o) == [obj EXCEPT ![o] = [@ EXCEPT !.free = TRUE, !.attempt = 0, !.id = None, !.reg = 0, !.prev = 0]]
+PutObj(o) == [obj EXCEPT ![o] = [@ EXCEPT !.free = TRUE, !.attempt = 0, !.id = None, !.reg = 0, !.prev = 0, !.rto = 1]]
 
 \* H1: lookup/delete under the client mutex and the completion-vs-retransmission decision
 CbLookup(p) ==
@@ -201,7 +204,7 @@ CbLookup(p) ==
                 ELSE \* retransmission: attempt++, copy to scratch -> clock.Now gate
                      /\ obj' = [obj EXCEPT ![o].attempt = @ + 1]
                      /\ Goto(p, "R_now") /\ SetLoc(p, [loc[p] EXCEPT !.o = o, !.id = obj[o].id])
-  /\ UNCHANGED << closed, closeChan, connCloses, at, aclosed, alock, clock, inbox, fails, resps, junk,
+  /\ UNCHANGED << closed, closeChan, connCloses, at, aclosed, alock, clock, rto, rtoBudget, inbox, fails, resps, junk,
                   wsucc, wlog, hcalls, hlast, ret, fbcalls, ended >>
 
 \* the user handler body (of the start instance that owns the object *now*), then pool put
@@ -214,14 +217,14 @@ UserHandler(p) ==
         /\ ended' = [i \in Ids |-> ended[i] \/ i = IdOf[s]]
         /\ obj' = PutObj(o)
   /\ Goto(p, "CB_exit")
-  /\ UNCHANGED << closed, closeChan, connCloses, ct, at, aclosed, alock, clock, loc, inbox, fails, resps, junk,
+  /\ UNCHANGED << closed, closeChan, connCloses, ct, at, aclosed, alock, clock, rto, rtoBudget, loc, inbox, fails, resps, junk,
                   wsucc, wlog, ret, fbcalls >>
 
 Fallback(p) ==
   /\ pc[p] = "FB"
   /\ fbcalls' = IF fbcalls < 3 THEN fbcalls + 1 ELSE fbcalls
   /\ Goto(p, "CB_exit")
-  /\ UNCHANGED << closed, closeChan, connCloses, ct, at, aclosed, alock, obj, clock, loc, inbox, fails, resps, junk,
+  /\ UNCHANGED << closed, closeChan, connCloses, ct, at, aclosed, alock, obj, clock, rto, rtoBudget, loc, inbox, fails, resps, junk,
                   wsucc, wlog, hcalls, hlast, ret, ended >>
 
 \* completion with an error from the retransmission path: once-guard, handler or put
@@ -242,7 +245,7 @@ RetxRegister(p) ==
         ELSE /\ ct' = [ct EXCEPT ![id] = o]
              /\ Goto(p, "R_agentStart") /\ SetLoc(p, [loc[p] EXCEPT !.now = clock])
              /\ obj' = [obj EXCEPT ![o].prev = obj[o].reg, ![o].reg = clock]
-  /\ UNCHANGED << closed, closeChan, connCloses, at, aclosed, alock, clock, inbox, fails, resps, junk,
+  /\ UNCHANGED << closed, closeChan, connCloses, at, aclosed, alock, clock, rto, rtoBudget, inbox, fails, resps, junk,
                   wsucc, wlog, hcalls, hlast, ret, fbcalls, ended >>
 
 \* R3: agent.Start with the new deadline (or its error path)
@@ -252,9 +255,9 @@ RetxAgent(p) ==
          id == loc[p].id
      IN IF aclosed \/ at[id] # None
         THEN /\ ct' = [ct EXCEPT ![id] = None] /\ FailWith(p, o, "starterr") /\ UNCHANGED at
-        ELSE /\ at' = [at EXCEPT ![id] = Deadline(loc[p].now, obj[o].attempt)]
+        ELSE /\ at' = [at EXCEPT ![id] = Deadline(loc[p].now, obj[o].attempt, obj[o].rto)]
              /\ Goto(p, "R_write") /\ UNCHANGED << ct, obj, loc >>
-  /\ UNCHANGED << closed, closeChan, connCloses, aclosed, alock, clock, inbox, fails, resps, junk,
+  /\ UNCHANGED << closed, closeChan, connCloses, aclosed, alock, clock, rto, rtoBudget, inbox, fails, resps, junk,
                   wsucc, wlog, hcalls, hlast, ret, fbcalls, ended >>
 
 \* R4: the retransmission itself
@@ -264,10 +267,10 @@ RetxWrite(p) ==
   /\ pc[p] = "R_write"
   /\ \E ok \in WriteOutcomes :
        /\ (SafePool /\ ~ok) => SoleHolder(p)
-       /\ LogWrite(loc[p].id, obj[loc[p].o].attempt, loc[p].now, obj[loc[p].o].prev, ok)
+       /\ LogWrite(loc[p].id, obj[loc[p].o].attempt, loc[p].now, obj[loc[p].o].prev, obj[loc[p].o].rto, ok)
        /\ IF ok THEN Goto(p, "CB_exit") /\ UNCHANGED ct
           ELSE ct' = [ct EXCEPT ![loc[p].id] = None] /\ Goto(p, "R_agentStop")
-  /\ UNCHANGED << closed, closeChan, connCloses, at, aclosed, alock, obj, clock, loc, inbox, resps, junk,
+  /\ UNCHANGED << closed, closeChan, connCloses, at, aclosed, alock, obj, clock, rto, rtoBudget, loc, inbox, resps, junk,
                   hcalls, hlast, ret, fbcalls, ended >>
 
 \* R5: agent.Stop after a failed retransmission (its nested stopped event finds nothing and is ignored),
@@ -276,7 +279,7 @@ RetxStop(p) ==
   /\ pc[p] = "R_agentStop" /\ alock = None
   /\ at' = IF aclosed THEN at ELSE [at EXCEPT ![loc[p].id] = None]
   /\ FailWith(p, loc[p].o, "writeerr")
-  /\ UNCHANGED << closed, closeChan, connCloses, ct, aclosed, alock, clock, inbox, fails, resps, junk,
+  /\ UNCHANGED << closed, closeChan, connCloses, ct, aclosed, alock, clock, rto, rtoBudget, inbox, fails, resps, junk,
                   wsucc, wlog, hcalls, hlast, ret, fbcalls, ended >>
 
 \* return from the wrapped handler into the agent method that called it
@@ -301,7 +304,7 @@ CbExit(p) ==
                  /\ AfterAgentClose /\ SetLoc(p, NoLoc)
             ELSE Goto(p, "CB_enter") /\ SetLoc(p, [NoLoc EXCEPT !.ev = Ev("closed", Head(loc[p].todo)), !.todo = Tail(loc[p].todo), !.rpc = "X"])
                  /\ UNCHANGED << at, aclosed, alock, closeChan >>
-  /\ UNCHANGED << closed, connCloses, ct, obj, clock, inbox, fails, resps, junk,
+  /\ UNCHANGED << closed, connCloses, ct, obj, clock, rto, rtoBudget, inbox, fails, resps, junk,
                   wsucc, wlog, hcalls, hlast, ret, fbcalls, ended >>
 
 ---------------------------------------------------------------------------
@@ -314,7 +317,7 @@ ReaderRead ==
         /\ IF inbox.kind = "garbage"
            THEN UNCHANGED << pc, loc >>                    \* undecodable: dropped, next Read
            ELSE Goto(RD, "RD_process") /\ SetLoc(RD, [NoLoc EXCEPT !.id = inbox.id])
-  /\ UNCHANGED << closed, closeChan, connCloses, ct, at, aclosed, alock, obj, clock, fails, resps, junk,
+  /\ UNCHANGED << closed, closeChan, connCloses, ct, at, aclosed, alock, obj, clock, rto, rtoBudget, fails, resps, junk,
                   wsucc, wlog, hcalls, hlast, ret, fbcalls, ended >>
 
 InRetxWindow(i) == \E p \in Procs : pc[p] \in {"R_now", "R_agentStart"} /\ loc[p].id = i
@@ -326,7 +329,7 @@ ReaderProcess ==
      THEN Goto(RD, "RD_done") /\ UNCHANGED << at, loc >>
      ELSE /\ at' = [i \in Ids |-> IF i = loc[RD].id THEN None ELSE at[i]]
           /\ Goto(RD, "CB_enter") /\ SetLoc(RD, [NoLoc EXCEPT !.ev = Ev("msg", loc[RD].id), !.rpc = "RD"])
-  /\ UNCHANGED << closed, closeChan, connCloses, ct, aclosed, alock, obj, clock, inbox, fails, resps, junk,
+  /\ UNCHANGED << closed, closeChan, connCloses, ct, aclosed, alock, obj, clock, rto, rtoBudget, inbox, fails, resps, junk,
                   wsucc, wlog, hcalls, hlast, ret, fbcalls, ended >>
 
 (* collector goroutine: one Collect(now) call *)
@@ -342,7 +345,7 @@ CollectorRun ==
           /\ \E q \in Perms(dead) :
                /\ Goto(CL, "CB_enter")
                /\ SetLoc(CL, [NoLoc EXCEPT !.ev = Ev("timeout", q[1]), !.todo = Tail(q), !.rpc = "CL"])
-  /\ UNCHANGED << closed, closeChan, connCloses, ct, aclosed, alock, obj, clock, inbox, fails, resps, junk,
+  /\ UNCHANGED << closed, closeChan, connCloses, ct, aclosed, alock, obj, clock, rto, rtoBudget, inbox, fails, resps, junk,
                   wsucc, wlog, hcalls, hlast, ret, fbcalls, ended >>
 
 (* Client.Close *)
@@ -350,14 +353,14 @@ CloseBegin ==
   /\ pc[X] = "X_begin"
   /\ IF closed THEN Goto(X, "X_done_err") /\ UNCHANGED closed
      ELSE closed' = TRUE /\ Goto(X, "X_collClose")
-  /\ UNCHANGED << closeChan, connCloses, ct, at, aclosed, alock, obj, clock, loc, inbox, fails, resps, junk,
+  /\ UNCHANGED << closeChan, connCloses, ct, at, aclosed, alock, obj, clock, rto, rtoBudget, loc, inbox, fails, resps, junk,
                   wsucc, wlog, hcalls, hlast, ret, fbcalls, ended >>
 
 \* collector.Close returns only when the collector goroutine is idle; it then stops for good
 CloseCollector ==
   /\ pc[X] = "X_collClose" /\ pc[CL] = "CL_idle"
   /\ pc' = [pc EXCEPT ![X] = "X_agentClose", ![CL] = "CL_stopped"]
-  /\ UNCHANGED << closed, closeChan, connCloses, ct, at, aclosed, alock, obj, clock, loc, inbox, fails, resps, junk,
+  /\ UNCHANGED << closed, closeChan, connCloses, ct, at, aclosed, alock, obj, clock, rto, rtoBudget, loc, inbox, fails, resps, junk,
                   wsucc, wlog, hcalls, hlast, ret, fbcalls, ended >>
 
 \* agent.Close: the agent mutex stays held across the closed events of all registered transactions
@@ -372,7 +375,7 @@ CloseAgent ==
                /\ Goto(X, "CB_enter")
                /\ SetLoc(X, [NoLoc EXCEPT !.ev = Ev("closed", q[1]), !.todo = Tail(q), !.rpc = "X"])
           /\ UNCHANGED << aclosed, at, closeChan >>
-  /\ UNCHANGED << closed, connCloses, ct, obj, clock, inbox, fails, resps, junk,
+  /\ UNCHANGED << closed, connCloses, ct, obj, clock, rto, rtoBudget, inbox, fails, resps, junk,
                   wsucc, wlog, hcalls, hlast, ret, fbcalls, ended >>
 
 \* conn.Close (unless WithNoConnClose), close(c.close); then wg.Wait
@@ -381,14 +384,14 @@ CloseConnAndChan ==
   /\ connCloses' = connCloses + 1
   /\ closeChan' = TRUE
   /\ Goto(X, "X_wait")
-  /\ UNCHANGED << closed, ct, at, aclosed, alock, obj, clock, loc, inbox, fails, resps, junk,
+  /\ UNCHANGED << closed, ct, at, aclosed, alock, obj, clock, rto, rtoBudget, loc, inbox, fails, resps, junk,
                   wsucc, wlog, hcalls, hlast, ret, fbcalls, ended >>
 
 CloseWait ==
   /\ pc[X] = "X_wait" /\ pc[RD] = "RD_done"
   /\ Goto(X, "X_done")
   /\ ended' = [i \in Ids |-> TRUE]
-  /\ UNCHANGED << closed, closeChan, connCloses, ct, at, aclosed, alock, obj, clock, loc, inbox, fails, resps, junk,
+  /\ UNCHANGED << closed, closeChan, connCloses, ct, at, aclosed, alock, obj, clock, rto, rtoBudget, loc, inbox, fails, resps, junk,
                   wsucc, wlog, hcalls, hlast, ret, fbcalls >>
 
 ---------------------------------------------------------------------------
@@ -400,7 +403,14 @@ Tick ==
   /\ clock < MaxClock
   /\ DeadlineTicks => (\E j \in Ids : at[j] # None) /\ NextDeadline > clock
   /\ clock' = IF DeadlineTicks /\ NextDeadline > clock /\ NextDeadline <= MaxClock THEN NextDeadline ELSE clock + 1
-  /\ UNCHANGED << closed, closeChan, connCloses, ct, at, aclosed, alock, obj, pc, loc, inbox, fails, resps, junk,
+  /\ UNCHANGED << closed, closeChan, connCloses, ct, at, aclosed, alock, obj, rto, rtoBudget, pc, loc, inbox, fails, resps, junk,
+                  wsucc, wlog, hcalls, hlast, ret, fbcalls, ended >>
+
+\* Client.SetRTO: affects transactions started later only
+SetRTO ==
+  /\ rtoBudget > 0
+  /\ rto' = 3 - rto /\ rtoBudget' = rtoBudget - 1
+  /\ UNCHANGED << closed, closeChan, connCloses, ct, at, aclosed, alock, obj, clock, pc, loc, inbox, fails, resps, junk,
                   wsucc, wlog, hcalls, hlast, ret, fbcalls, ended >>
 
 \* a response can only exist for a request that reached the wire
@@ -408,7 +418,7 @@ Deliver ==
   /\ inbox = None /\ ~closeChan
   /\ \/ /\ resps > 0 /\ \E i \in Ids : wsucc[i] > 0 /\ inbox' = [kind |-> "msg", id |-> i] /\ resps' = resps - 1 /\ UNCHANGED junk
      \/ /\ junk > 0 /\ inbox' \in { [kind |-> "garbage", id |-> Unk], [kind |-> "msg", id |-> Unk] } /\ junk' = junk - 1 /\ UNCHANGED resps
-  /\ UNCHANGED << closed, closeChan, connCloses, ct, at, aclosed, alock, obj, clock, pc, loc, fails,
+  /\ UNCHANGED << closed, closeChan, connCloses, ct, at, aclosed, alock, obj, clock, rto, rtoBudget, pc, loc, fails,
                   wsucc, wlog, hcalls, hlast, ret, fbcalls, ended >>
 
 CbStep(p) == CbLookup(p) \/ UserHandler(p) \/ Fallback(p) \/ RetxRegister(p) \/ RetxAgent(p) \/ RetxWrite(p)
@@ -419,7 +429,7 @@ Next ==
   \/ \E p \in Procs : CbStep(p)
   \/ ReaderRead \/ ReaderProcess \/ CollectorRun
   \/ CloseBegin \/ CloseCollector \/ CloseAgent \/ CloseConnAndChan \/ CloseWait
-  \/ Tick \/ Deliver
+  \/ Tick \/ Deliver \/ SetRTO
 
 Spec == Init /\ [][Next]_vars
 
@@ -445,7 +455,10 @@ QuietAfterEnd == [][ \A i \in Ids : (ended[i] /\ Len(wlog') > Len(wlog)) =>
 \* transmission k-1 (the agent compares deadline.Before(now))
 OnSchedule ==
   \A k \in 1..Len(wlog) :
-    wlog[k].attempt > 0 => wlog[k].reg > wlog[k].prev + wlog[k].attempt * RTO
+    wlog[k].attempt > 0 => wlog[k].reg > wlog[k].prev + wlog[k].attempt * wlog[k].rto
+
+\* SetRTO affects only transactions started later: a live transaction's RTO never changes
+RtoSnapshot == [][ \A o \in Objs : (~obj[o].free /\ ~obj'[o].free /\ obj[o].owner = obj'[o].owner) => obj'[o].rto = obj[o].rto ]_vars
 
 \* C15
 ConnOwnership == connCloses <= (IF CloseConn THEN 1 ELSE 0)
